@@ -3,6 +3,7 @@ package harness
 import (
 	"encoding/binary"
 	"fmt"
+	"math"
 	"strings"
 
 	"verif/pgwire"
@@ -23,6 +24,19 @@ func c14Table(r *Rand, ncols, nrows int, oids []uint32) ([]ColSpec, [][][]byte, 
 		for i, c := range cols {
 			if r.Chance(1, 4) {
 				sb.WriteString(" [NULL]")
+				continue
+			}
+			if fam := oidFamily(c.OID); (fam == "date" || fam == "ts" || fam == "tstz") && r.Chance(1, 8) {
+				// 'infinity' / '-infinity': a regular value of these types
+				sign := int64(r.PickInt(1, -1))
+				var enc []byte
+				if fam == "date" {
+					enc = binary.BigEndian.AppendUint32(nil, uint32(int32(map[int64]int32{1: math.MaxInt32, -1: math.MinInt32}[sign])))
+				} else {
+					enc = binary.BigEndian.AppendUint64(nil, uint64(map[int64]int64{1: math.MaxInt64, -1: math.MinInt64}[sign]))
+				}
+				row[i] = enc
+				fmt.Fprintf(&sb, " [%s]", pgwire.Value{Kind: "infinity", I: sign}.String())
 				continue
 			}
 			v := genVal(r, c.OID).Canon(c.OID)
